@@ -61,6 +61,29 @@ Definition exists_disjoint_pair (n : net) (s1 t1 : Z) (inc1 : list Z) (s2 t2 : Z
   existsb_lazy (fun p1 => let l1 := links n p1 in existsb_lazy (fun l => negb (share l1 l)) l2)
                (cands n s1 t1 inc1 cutoff).
 
+(* ------------------------------------------------------------------ existence of a disjoint assignment for a whole batch:
+   one route per request such that any two requests named together in some group get link-disjoint routes.
+   Backtracking over the complete candidate lists (if/then/else so that vm_compute prunes). *)
+Definition conflict (groups : list (list Z)) (a b : Z) : bool :=
+  negb (a =? b) && existsb (fun grp => memZ a grp && memZ b grp) groups.
+Definition item := (Z * list (Z * Z))%type.                       (* request id, links of the route chosen for it *)
+Definition compat (groups : list (list Z)) (x y : item) : bool :=
+  negb (conflict groups (fst x) (fst y)) || negb (share (snd x) (snd y)).
+Fixpoint assign (groups : list (list Z)) (rqs : list (Z * list (list (Z * Z)))) (chosen : list item) : bool :=
+  match rqs with
+  | [] => true
+  | (r, cs) :: rest =>
+      existsb_lazy (fun l => if forallb (compat groups (r, l)) chosen then assign groups rest ((r, l) :: chosen) else false) cs
+  end.
+(* a request of the batch: id, source, destination, include list that must be met *)
+Definition breq := (Z * Z * Z * list Z)%type.
+Definition b_id (r : breq) : Z := fst (fst (fst r)).
+Definition b_src (r : breq) : Z := snd (fst (fst r)).
+Definition b_dst (r : breq) : Z := snd (fst r).
+Definition b_inc (r : breq) : list Z := snd r.
+Definition exists_disjoint_assignment (n : net) (cutoff : nat) (groups : list (list Z)) (rqs : list breq) : bool :=
+  assign groups (map (fun r => (b_id r, map (links n) (cands n (b_src r) (b_dst r) (b_inc r) cutoff))) rqs) [].
+
 (* ------------------------------------------------------------------ request ids and groups
    a request id is the list of the original ids it aggregates ("a | b" = a ++ b) *)
 Definition rid := list Z.
